@@ -302,6 +302,9 @@ def _find_root_by_bisection(a, b, alpha, eps, tol=1e-8):
     c = (a + b) / 2.
     while b - a > tol:
         c = (a + b) / 2.
+        if c <= a or c >= b:
+            # a and b are adjacent floats (large roots: their spacing exceeds tol)
+            break
         if _r(c, alpha, eps) < 0:
             b = c
         else:
